@@ -108,6 +108,9 @@ impl crux_core::App for App3 {
                     Command::all(tasks.into_iter().map(task_command))
                 }
             }
+            // an event of a task numbered 50 or above makes update ask the shell for something:
+            // an effect that is sent from inside the event loop of Core::process
+            Ev::E(k, i) if k >= 50 => task_command(TaskSpec { task: 5000 + k * 10 + i, n: 0, req: true, many: false }),
             Ev::E(..) => Command::done(),
         }
     }
@@ -267,6 +270,11 @@ pub fn finish(inst: &Inst) -> Obs {
         }
         let n = if !s.req { s.n } else if !s.many { if r > 0 { s.n } else { 0 } } else { r };
         sent.push((s.task, n));
+        if s.task >= 50 {
+            for i in 0..n {
+                expected_effects.push(5000 + s.task * 10 + i);
+            }
+        }
     }
     // probe: a no-op event must return nothing and must find nothing left to do; every live stream
     // must still accept a resolution and deliver it
